@@ -348,6 +348,15 @@ impl<T, U> Absent for ViaFrom<T, U> {}
 impl<T, U> Absent for ViaTryFrom<T, U> {}
 impl<T: From<U>, U> ViaFrom<T, U> { const HOLDS: bool = true; }
 impl<T: TryFrom<U>, U> ViaTryFrom<T, U> { const HOLDS: bool = true; }
+struct IsDefault<T>(PhantomData<T>);
+struct IsFromStr<T>(PhantomData<T>);
+struct IsDeserialize<T>(PhantomData<T>);
+impl<T> Absent for IsDefault<T> {}
+impl<T> Absent for IsFromStr<T> {}
+impl<T> Absent for IsDeserialize<T> {}
+impl<T: Default> IsDefault<T> { const HOLDS: bool = true; }
+impl<T: core::str::FromStr> IsFromStr<T> { const HOLDS: bool = true; }
+impl<T: serde::de::DeserializeOwned> IsDeserialize<T> { const HOLDS: bool = true; }
 """
 
 
@@ -434,6 +443,12 @@ def conversion_table_programs(max_n):
                 rows.append(table_row(ty, trait, text, e))
                 n_true += 1 if e else 0
                 n_false += 0 if e else 1
+        typed_ok = (kind in ("sym", "nonce") and purpose == "Local") or (kind in ("priv", "pub") and purpose == "Public")
+        if not typed_ok:
+            # a value of this type comes from nowhere: not from Default, from text (FromStr), or from a deserialiser either
+            for w, what in (("IsDefault", "Default"), ("IsFromStr", "FromStr"), ("IsDeserialize", "serde::Deserialize")):
+                rows.append('const _: () = assert!(!<%s<%s>>::HOLDS, "ROW|%s|%s||exists");\n' % (w, ty, ty, what))
+                n_false += 1
         p = P("table_%s_v%d_%s" % (kind, v, purpose.lower()), "conversion-table", PROBE_HEAD + "".join(rows) + "fn main() {}\n", True,
               "conversion table of %s: %d rows that must not exist, %d that must (From / TryFrom from Key<N>, &Key<N>, &mut Key<N>, [u8; N], &[u8; N] for N = 1..%d, slices, vectors, text, every other typed key)" % (ty, n_false, n_true, max_n))
         p.rows = (n_true, n_false)
@@ -451,7 +466,12 @@ def table_violations(p, errs):
         how = how.strip().split("\n")[0]
         exists = how.startswith("exists")
         ident = "row_" + hashlib.sha256(("%s|%s|%s" % (ty, trait, text)).encode()).hexdigest()[:10]
-        q = P(ident, "conversion-table", PROBE_HEAD + table_row(ty, trait, text, not exists) + "fn main() {}\n", True, "%s: %s<%s> %s" % (ty, trait, text, "exists but must not" if exists else "is missing"))
+        wrappers = {"Default": "IsDefault", "FromStr": "IsFromStr", "serde::Deserialize": "IsDeserialize"}
+        if trait in wrappers:
+            row = 'const _: () = assert!(!<%s<%s>>::HOLDS, "ROW|%s|%s||exists");\n' % (wrappers[trait], ty, ty, trait)
+        else:
+            row = table_row(ty, trait, text, not exists)
+        q = P(ident, "conversion-table", PROBE_HEAD + row + "fn main() {}\n", True, "%s: %s<%s> %s" % (ty, trait, text, "exists but must not" if exists else "is missing"))
         q.sig = "%s:conversion-%s:%s:%s<%s>" % (PID, "exists" if exists else "missing", ty.replace("'static, ", "").replace(" ", ""), trait, text.replace("'static ", "").replace(" ", ""))
         out.append((q, "%s: %s<%s> %s" % (ty, trait, text, "compiles: a construction path the property rules out" if exists else "no longer exists: the program with matching types is rejected")))
     return out
@@ -535,6 +555,8 @@ publish = false
 
 [dependencies]
 rusty_paseto = { path = "%s", default-features = false, features = ["default", "batteries_included", "v1_local", "v2_local", "v3_local", "v4_local", "v1_public", "v2_public", "v3_public", "v4_public"] }
+
+serde = "1"
 
 [workspace]
 """
